@@ -943,3 +943,32 @@ func fvname(v *ssa.FreeVar) string {
 	}
 	return v.Name()
 }
+
+// reachAgainst: can `target` be reached from the entry of f whatever way the branches on `adversarial` blocks go?
+// (a two-player reachability game: at a block for which adversarial() holds every successor must lead to the
+// target, at any other block one successor suffices). Used for "this happens whenever <allowed conditions> hold":
+// the conditions that are NOT allowed to matter are played by the adversary.
+func reachAgainst(f *ssa.Function, target ssa.Instruction, adversarial func(b *ssa.BasicBlock) bool) bool {
+	win := map[*ssa.BasicBlock]bool{target.Block(): true}
+	for changed := true; changed; {
+		changed = false
+		for _, b := range f.Blocks {
+			if win[b] || len(b.Succs) == 0 {
+				continue
+			}
+			all, some := true, false
+			for _, s := range b.Succs {
+				if win[s] {
+					some = true
+				} else {
+					all = false
+				}
+			}
+			if (adversarial(b) && all) || (!adversarial(b) && some) {
+				win[b] = true
+				changed = true
+			}
+		}
+	}
+	return len(f.Blocks) > 0 && win[f.Blocks[0]]
+}
